@@ -11,6 +11,7 @@ import subprocess
 import tempfile
 import time
 
+import lib
 from lib import SCRUT_BIN
 
 NONE = -1
@@ -263,6 +264,11 @@ def observe(sc, want_summary=False, keep=False):
         nd = len(sc["docs"])
         res, ran, dupes = [], [], 0
         by_loc = {}
+        if isinstance(outcomes, list) and outcomes and not any(isinstance(oc, dict) and isinstance(oc.get("result"), dict) and "kind" in oc["result"]
+                                                               and ("location" in oc) for oc in outcomes):
+            # the structured rendering no longer has the shape this runner reads (`location`, `result.kind`): that is a
+            # matter of the machinery, not a verdict about scrut
+            raise lib.ToolError("the json rendering has no entries with `location` and `result.kind`: the scenario runner cannot read results")
         if isinstance(outcomes, list):
             for oc in outcomes:
                 loc = oc.get("location", "")
